@@ -13,15 +13,19 @@ import json
 import os
 import shutil
 
+import heur
 import searchmc
+import steps
 import vlib
 from vlib import ToolError, log
 
 TIERS = {
     "quick": {"C05": dict(shards=16, positions=5, depth=3, validate=1, cap=30000, max_men=7, fixed=4, win_positions=400, win_depth=3),
               "C06": dict(shards=16, positions=2, depth=3, validate=0, cap=6000, max_men=6, kstep=1)},
-    "thorough": {"C05": dict(shards=16, positions=150, depth=3, validate=6, cap=60000, max_men=8, fixed=5, win_positions=4000, win_depth=4),
-                 "C06": dict(shards=16, positions=40, depth=3, validate=0, cap=12000, max_men=7, kstep=1)},
+    "thorough": {"C05": dict(shards=16, positions=150, depth=3, validate=6, cap=60000, max_men=8, fixed=5, win_positions=4000, win_depth=4,
+                         steps=dict(cases=96, depth=3, heur_ops=20000)),
+                 "C06": dict(shards=16, positions=40, depth=3, validate=0, cap=12000, max_men=7, kstep=1,
+                             steps=dict(cases=96, depth=3, two=True))},
 }
 
 
@@ -144,6 +148,15 @@ def run(prop, tier, seed):
             R.coverage["alpha_beta_contract"] = {"positions_x_depths": wev, "window_probes": wpr,
                                                  "note": "positions of every game phase, no finite-quiescence restriction"}
             log("[C05] alpha-beta contract: %d position/depth pairs, %d window probes" % (wev, wpr))
+        # step-level binding of Search.tla to the code (SPEC-DRIFT detector, no verdict)
+        ST = T.get("steps", {})
+        if prop == "C05":
+            R.coverage["step_traces"] = steps.run(R, exe, work, seed, 0, ST.get("cases", 16), ST.get("depth", 2))
+            R.coverage["heuristic_containers"] = heur.run(R, exe, work, seed, ops=ST.get("heur_ops", 3000))
+        else:
+            R.coverage["step_traces"] = steps.run(R, exe, work, seed, 1, ST.get("cases", 16), ST.get("depth", 2))
+            if ST.get("two"):
+                R.coverage["step_traces_two_interruptions"] = steps.run(R, exe, work, seed + 1, 2, ST.get("cases", 16), ST.get("depth", 2), tag="steps2")
         R.coverage["traces_validated_against_impl"] = tot.get("positions", 0) + R.coverage.get("alpha_beta_contract", {}).get("positions_x_depths", 0)
         R.coverage["graph_audit"] = tot
         R.coverage["events_matched"] = events
